@@ -256,6 +256,9 @@ func (c consMap) Has(k int) bool        { return c.m.Has(c19ConsKeys[k]) }
 func (c consMap) Len() int              { return c.m.Len() }
 func (c consMap) JSON() ([]byte, error) { return nil, errNoJSON }
 
+var c19Tape = simrt.NewTape(0)
+var c19ReplayTape = simrt.NewReplayTape([simrt.NKinds][]uint32{})
+
 var errNoJSON = errors.New("not judged")
 var errInjected = errors.New("injected callback failure")
 
@@ -320,10 +323,20 @@ func dedupKeys(keys []int) []int {
 
 // runC19 executes the history as the single simulated task and compares with
 // the model after every operation.
-func runC19(w *C19World, onFatal func(int, string)) *c19Result {
+func runC19(w *C19World, seed uint64, onFatal func(int, string)) *c19Result {
 	res := &c19Result{}
-	tape := simrt.NewReplayTape([simrt.NKinds][]uint32{})
-	simrt.Begin(simrt.Config{Tape: tape, OnFatal: onFatal})
+	// seed 0 (enumerated histories): canonical map order; otherwise every range
+	// over a Go map inside the container code is permuted from the seed
+	tape := c19ReplayTape
+	if seed != 0 {
+		c19Tape.Reset(seed)
+		tape = c19Tape
+	} else {
+		for k := range tape.S {
+			tape.S[k].Pos = 0
+		}
+	}
+	simrt.Begin(simrt.Config{Tape: tape, OnFatal: onFatal, MapPerm: seed != 0})
 	simrt.Run([]func(){func() { c19Task(w, res) }})
 	return res
 }
@@ -406,8 +419,10 @@ func c19Task(w *C19World, res *c19Result) {
 		case "map":
 			n := 0
 			var planned []modelEntry
+			var offered []modelEntry
 			err := cm.Map(func(kk, id int) (int, error) {
 				n++
+				offered = append(offered, modelEntry{kk, id})
 				if op.FailAt > 0 && n == op.FailAt {
 					res.cbErrs++
 					return id, errInjected
@@ -419,6 +434,15 @@ func c19Task(w *C19World, res *c19Result) {
 			failed := op.FailAt > 0 && op.FailAt <= len(m.e)
 			if failed != (err != nil) {
 				fail(i, op, "Map error propagation", fmt.Sprint(failed), fmt.Sprint(err))
+			}
+			// iteration order is an observable: the callback must be offered the
+			// entries in insertion order (up to and including the failing one)
+			wantOffered := m.e
+			if failed {
+				wantOffered = m.e[:op.FailAt]
+			}
+			if fmt.Sprint(offered) != fmt.Sprint(wantOffered) {
+				fail(i, op, "Map did not offer the entries to the callback in insertion order", fmt.Sprint(wantOffered), fmt.Sprint(offered))
 			}
 			if !failed {
 				for _, p := range planned {
@@ -449,8 +473,19 @@ func c19Task(w *C19World, res *c19Result) {
 			if op.Mask&1 == 1 {
 				target = -1
 			}
-			gk, gid, ok := cm.Find(func(kk, id int) bool { return kk == target })
+			var offered []int
+			gk, gid, ok := cm.Find(func(kk, id int) bool { offered = append(offered, kk); return kk == target })
 			j := m.idx(target)
+			var wantOffered []int
+			for _, e := range m.e {
+				wantOffered = append(wantOffered, e.k)
+				if e.k == target {
+					break
+				}
+			}
+			if fmt.Sprint(offered) != fmt.Sprint(wantOffered) {
+				fail(i, op, "Find did not offer the entries to the predicate in insertion order", fmt.Sprint(wantOffered), fmt.Sprint(offered))
+			}
 			if ok != (j >= 0) || (ok && (gk != target || gid != m.e[j].id)) {
 				fail(i, op, "Find result", fmt.Sprint(j >= 0), fmt.Sprint(gk, gid, ok))
 			}
@@ -688,7 +723,7 @@ func run1C19(w *World, o *Run1Out) {
 		os.Stdout.Write(append(b, '\n'))
 		os.Exit(0)
 	}
-	res := runC19(cw, onFatal)
+	res := runC19(cw, w.Seed, onFatal)
 	st := simrt.GetStats()
 	o.EventHash, o.ObsHash, o.Steps = st.EventHash, res.hash, st.Steps
 	o.Violation = res.viol
@@ -725,7 +760,7 @@ func c19WorkerMain(args []string) {
 	}
 	one := func(i int, w *World, cw *C19World) {
 		cur = &Candidate{Prop: "C19", Seed: *seed, RunIdx: i, Wid: *wid, World: w}
-		res := runC19(cw, onFatal)
+		res := runC19(cw, w.Seed, onFatal)
 		sum.Runs++
 		sum.Ops += int64(res.ops)
 		sum.Steps += simrt.GetStats().Steps
